@@ -518,6 +518,50 @@ def enum_header(entries, wide=False):
     return "%grmtools{" + ", ".join((k + ": " + v) if v is not None else k for k, v in entries) + "}"
 
 
+
+# ---- white space around the argument of a constructor value -------------------------------------------------
+# /repo fdd053a: `Original( NoAction)` (white space directly after the opening parenthesis) was an IllegalName
+# error although white space is skipped between every other pair of lexemes of the section.  The family below is
+# part of EVERY run (it does not depend on the seed): every run of CTOR_WS after '(' x every run before ')' x a few
+# constructor values and surroundings, and the audit's texts literally.
+CTOR_WS = ["", " ", "\n", "\t", "   ", "\n        ", "\r\n\t", "\x0b\x0c", "\x85", "\u2028 ", "\u200e\u200f", " \u2029\n "]
+CTOR_VALUES = [(None, "Original", None, "NoAction"), ("YaccKind", "Original", "YaccOriginalActionKind", "NoAction"),
+               (None, "Original", "YaccOriginalActionKind", "GenericParseTree"), (None, "Original", None, "UserAction"),
+               (None, "X", "Y", "Z"), ("YaccKnd", "Orignal", None, "NoActon")]
+CTOR_AUDIT = [
+    "%grmtools{yacckind: Original( NoAction)}",
+    "%grmtools{yacckind: Original( NoAction )}",
+    "%grmtools{\n    yacckind: Original(\n        YaccOriginalActionKind::NoAction\n    ),\n}",
+    "%grmtools { yacckind : Original (NoAction ) , }",
+    "%grmtools{yacckind: Original(YaccOriginalActionKind :: NoAction)}",
+    "%grmtools{yacckind: YaccKind :: Original(NoAction)}",
+]
+
+
+def ctor_value_text(v, after="", before=""):
+    cns, c, ans, a = v
+    return _nsd(cns, c, False) + "(" + after + _nsd(ans, a, False) + before + ")"
+
+
+def ctor_ws_headers():
+    """[(section text, reference section text)]: the reference is the same section without the white space after
+    '(' and before ')' — the parsed VALUE (spans apart) must not depend on it"""
+    out = [(t, "%grmtools{yacckind: Original(" + ("YaccOriginalActionKind::" if "Kind::No" in t else "") + "NoAction)}")
+           for t in CTOR_AUDIT[:3]]
+    for v in CTOR_VALUES:
+        ref = "%grmtools{yacckind: " + ctor_value_text(v) + "}"
+        for after in CTOR_WS:
+            for before in CTOR_WS[:6]:
+                if after or before:
+                    out.append(("%grmtools{yacckind: " + ctor_value_text(v, after, before) + "}", ref))
+    # not the first entry, inside an array, two constructor values in one section, white space that is no lexeme
+    # separator elsewhere
+    for after in CTOR_WS[1:]:
+        out.append(("%grmtools{a: 1, k: [A(" + after + "B), C::D(" + after + "E::F" + after + ")], yacckind: Original(" + after + "NoAction)}",
+                    "%grmtools{a: 1, k: [A(B), C::D(E::F)], yacckind: Original(NoAction)}"))
+    return out
+
+
 def enum_value_headers(rng, n_random):
     """list of (text of the section, origin tag): the exhaustive right/absent/wrong product for yacckind, the
     products for the other enum keys, other shapes, several wrong keys at once, and `n_random` random picks out of
